@@ -172,6 +172,19 @@ def r12_3(ck):
                     at=calls[0]))
         ck.require(ok, 'R12.3', f, calls[0],
                    'what is emitted contains the data row', None, calls[0])
+    ecallers = []
+    for fi in ck.repo.functions:
+        if fi.is_test:
+            continue
+        for c in A.calls_in(fi.node, '_emit_store_data'):
+            ecallers.append(fi.qual)
+            ck.require(fi.qual in ('Engine.__init__', 'Engine.run_for'),
+                       'R12.3', fi, c,
+                       'history rows are emitted only by the constructor '
+                       'and by run_for (after updates and steps)',
+                       'a history row is emitted from %s, outside the '
+                       'places where the state is known to be complete for '
+                       'its time' % fi.qual, c)
     g = ck.fn('Engine._emit_configuration', 'core.engine')
     ok = "'table': 'configuration'" in A.unparse(g.node)
     ck.require(ok, 'R12.3', g, g.node.name,
